@@ -80,6 +80,7 @@ func (s *c28Store) Metadata(ctx context.Context, topics []string) (*metadata.Clu
 func c28CloneMeta(m *metadata.ClusterMetadata) metadata.ClusterMetadata {
 	out := metadata.ClusterMetadata{ControllerID: m.ControllerID}
 	out.Brokers = append(out.Brokers, m.Brokers...)
+	out.Topics = make([]kmsg.MetadataResponseTopic, 0, len(m.Topics))
 	for _, t := range m.Topics {
 		nt := t
 		if t.Topic != nil {
@@ -87,6 +88,9 @@ func c28CloneMeta(m *metadata.ClusterMetadata) metadata.ClusterMetadata {
 			nt.Topic = &n
 		}
 		nt.Partitions = nil
+		if len(t.Partitions) > 0 {
+			nt.Partitions = make([]kmsg.MetadataResponseTopicPartition, 0, len(t.Partitions))
+		}
 		for _, p := range t.Partitions {
 			np := p
 			np.Replicas = append([]int32(nil), p.Replicas...)
